@@ -323,7 +323,7 @@ func (w *World) enabled() []core.WCmd {
 			okw = 2 // a slow node: its operations stay in flight for a long time
 		}
 		add(okw, core.Cmd{A: "rel", Op: op.ID, Out: core.OutOK})
-		if p.OpErrW > 0 {
+		if p.OpErrW > 0 && op.Kind != "cache" {
 			add(p.OpErrW, core.Cmd{A: "rel", Op: op.ID, Out: core.OutErrNot})
 			if op.Mut {
 				add(p.OpErrW, core.Cmd{A: "rel", Op: op.ID, Out: core.OutErrApplied})
@@ -470,6 +470,10 @@ func (w *World) exec(c core.Cmd) bool {
 		}
 		p := op.Payload.(*pendingOp)
 		out := c.Out
+		if op.Kind == "cache" {
+			w.sim.Release(op, core.OutOK)
+			return true
+		}
 		if !op.Mut && out == core.OutErrApplied {
 			out = core.OutErrNot
 		}
@@ -732,7 +736,9 @@ func (w *World) epilogue() {
 		if ops := w.liveParked(); len(ops) > 0 {
 			op := ops[0]
 			pp := op.Payload.(*pendingOp)
-			w.apply(w.insts[op.Inst], op.Inc, op.Kind, op.Key, pp, true)
+			if op.Kind != "cache" {
+				w.apply(w.insts[op.Inst], op.Inc, op.Kind, op.Key, pp, true)
+			}
 			sim.Release(op, core.OutOK)
 			continue
 		}
